@@ -2,17 +2,17 @@
 # verify_seed.sh <id>: confirm in the scratch worktree /tmp/seed-<id> that the seeded change
 # (1) compiles and keeps the existing suite green, (2) makes the demonstration fail, and
 # (3) the demonstration passes without it.
-flags="$2"; id=$1; wt=/tmp/seed-$id; out=/tmp/seed-$id-out
+flags="$2"; id=$1; pre=${SEED_PREFIX:-seed}; wt=/tmp/$pre-$id; out=/tmp/$pre-$id-out
 export CARGO_NET_OFFLINE=true RUST_BACKTRACE=0
 cd $wt || exit 2
 cp $out/seed_demo.rs tests/seed_demo.rs 2>/dev/null
 git checkout -q -- src macros; git apply $out/patch.diff || { echo "patch does not apply"; exit 2; }
 extra=""; grep -q gecs_verif tests/seed_demo.rs && extra='--cfg gecs_verif'
-RUSTFLAGS="$extra" cargo test $flags --workspace --no-fail-fast --offline 2>&1 | grep -E "^test result|Running|FAILED|failed" > /tmp/seed-$id-with.log
-with_existing_fail=$(grep -B1 "FAILED\|[1-9][0-9]* failed" /tmp/seed-$id-with.log | grep Running | grep -v seed_demo | wc -l)
-with_demo_fail=$(awk '/seed_demo/{f=1;next} f&&/^test result/{print; f=0}' /tmp/seed-$id-with.log | grep -c "FAILED")
+RUSTFLAGS="$extra" cargo test $flags --workspace --no-fail-fast --offline 2>&1 | grep -E "^test result|Running|FAILED|failed" > /tmp/$pre-$id-with.log
+with_existing_fail=$(grep -B1 "FAILED\|[1-9][0-9]* failed" /tmp/$pre-$id-with.log | grep Running | grep -v seed_demo | wc -l)
+with_demo_fail=$(awk '/seed_demo/{f=1;next} f&&/^test result/{print; f=0}' /tmp/$pre-$id-with.log | grep -c "FAILED")
 git apply -R $out/patch.diff
-RUSTFLAGS="$extra" cargo test $flags --test seed_demo --offline 2>&1 | grep -E "^test result" > /tmp/seed-$id-without.log
-without_demo_ok=$(grep -c "test result: ok" /tmp/seed-$id-without.log)
+RUSTFLAGS="$extra" cargo test $flags --test seed_demo --offline 2>&1 | grep -E "^test result" > /tmp/$pre-$id-without.log
+without_demo_ok=$(grep -c "test result: ok" /tmp/$pre-$id-without.log)
 git apply $out/patch.diff
 echo "seed $id: existing targets failing with change: $with_existing_fail ; demo fails with change: $with_demo_fail ; demo passes without: $without_demo_ok"
